@@ -25,7 +25,7 @@ import signal
 import subprocess
 import tempfile
 
-from .common import Check, Err, Raw, cbool, clist, cpair, cstr, impl_call
+from .common import Check, Err, Raw, cbool, clist, cpair, cstr, impl_call, shrink_list
 
 IMPORTS = ("From Coq Require Import List NArith ZArith Bool.\n"
            "From Verif Require Import Base.Val C34.Model_C34 C34.Spec_C34.")
@@ -407,7 +407,7 @@ done
 
 
 class Case:
-    __slots__ = ("chunks", "feat", "vars", "funcs", "vwl", "fwl", "impl", "data", "tag")
+    __slots__ = ("chunks", "feat", "vars", "funcs", "vwl", "fwl", "impl", "data", "trig")
 
 
 def build_cases(chk, n, depth, trig_share=0.12):
@@ -444,6 +444,7 @@ def build_cases(chk, n, depth, trig_share=0.12):
             continue
         chunks = []
         feat = set()
+        trig = {}
         for nm, _, ft in vs:
             ls = [l for l in vd if l.startswith(nm + "=")]
             if len(ls) == 1:
@@ -455,12 +456,15 @@ def build_cases(chk, n, depth, trig_share=0.12):
             if got.get(nm):
                 chunks.append(("f", nm, got[nm]))
                 feat |= ft
+                for t in ft:
+                    if t.startswith("TRIG-"):
+                        trig[nm] = t[5:]
         if not chunks:
             continue
         if rng.random() < 0.35:
             rng.shuffle(chunks)          # any concatenation of whole definitions is a dump
         c = Case()
-        c.chunks, c.feat = chunks, feat
+        c.chunks, c.feat, c.trig = chunks, feat, trig
         cases.append(c)
     shutil.rmtree(d, ignore_errors=True)
     return cases
@@ -502,7 +506,7 @@ def run_impl(data, vars_, funcs, vwl, fwl):
     from pkgcore.ebuild.filter_env import main_run
     out = io.BytesIO()
     old = signal.signal(signal.SIGALRM, _alarm)
-    signal.setitimer(signal.ITIMER_REAL, 5.0)
+    signal.setitimer(signal.ITIMER_REAL, 2.0)
     try:
         main_run(out, data, vars_, funcs, vwl, fwl)
         return out.getvalue().decode("utf-8")
@@ -529,6 +533,16 @@ def expected_text(c):
     """Every chunk is one definition followed by its terminating newline; a removed definition
     leaves that newline behind (the separator is not part of the definition)."""
     return "".join((t if survives(c, k, nm) else "\n") for k, nm, t in c.chunks)
+
+
+def digest(r):
+    """(length, polynomial hash) of an output string — Model_C34.digest."""
+    if isinstance(r, Err):
+        return r
+    h = 7
+    for ch in r:
+        h = (h * 257 + ord(ch) + 1) % 2147483647
+    return [len(r), h]
 
 
 def c_names(l):
@@ -626,21 +640,64 @@ def c_raw(data, vars_, funcs, vwl, fwl):
 
 
 # ------------------------------------------------------------------------------- classification of findings
+# Shapes of function text that the scanner is known to mis-nest on the unchanged tree
+# (known_findings/C34.json).  The generator plants at most one of them per function and records
+# which; a failure is attributed to a class only if, after shrinking the dump to a minimal failing
+# list of definitions, every function left carries that planted shape and its text still contains
+# one of the class's marker strings.
+MARKERS = {
+    "open-brace-word": ["x{\n", "x{;", "x{ ", "{a", "}{", "${x%\\{}{", "a{b"],
+    "quoted-brace-in-expansion": ["${x%'}'}", "${x%\"}\"}", "${x:-\"a}b\"}", "${x//'}'/y}"],
+    "close-brace-word": ["echo }", "})\n"],
+    "assign-closes-cmdsub": ["$(v=1)", "v=b)", "$(v=(1 2))"],
+    "heredoc-in-group": ["<<EOF\n}\nEOF", "<<EOF\n)\nEOF", "<<'E'\n a }\nE"],
+    "escaped-brace-expansion-in-group": ["${x%\\}}", "${x//\\}/b}", "${x:-\\}}"],
+}
+
+
+def fails_textually(c, chunks):
+    data = "".join(t for _, _, t in chunks)
+    r = run_impl(data, c.vars, c.funcs, c.vwl, c.fwl)
+    exp = "".join((t if survives(c, k, nm) else "\n") for k, nm, t in chunks)
+    return r != exp
+
+
 def finding_class(c):
-    """Precise class of a (B) failure on a bash-produced dump, or None.  Filled in from what the
-    unchanged tree shows; see known_findings/C34.json."""
-    return None
+    """Class id of a (B) failure on a bash-produced dump, or None when it is not one of the
+    known mis-nesting shapes."""
+    if c.impl == Err("hang"):
+        return "heredoc-empty-delimiter-hang" if ("<<''" in c.data or '<<""' in c.data) else None
+    chunks = list(c.chunks)
+    if fails_textually(c, chunks):
+        chunks = shrink_list(chunks, lambda cs: bool(cs) and fails_textually(c, cs), min_len=1)
+    funcs = [(nm, t) for k, nm, t in chunks if k == "f"]
+    if not funcs:
+        return None
+    classes = set()
+    for nm, t in funcs:
+        cls = c.trig.get(nm)
+        if cls is None:
+            # a function without a planted shape may only be a bystander (e.g. the definition that
+            # follows the mis-nested one); it must not fail on its own
+            if fails_textually(c, [("f", nm, t)]):
+                return None
+            continue
+        if not any(m in t for m in MARKERS[cls]):
+            return None
+        classes.add(cls)
+    return classes.pop() if len(classes) == 1 else None
 
 
 # ------------------------------------------------------------------------------- main
 def main(chk: Check):
     chk.rule("variables with values from 12 classes (every quoting style `set` emits: bare, '..', '\\'' splices, $'..', "
              "indexed arrays with \"..\"/$'..' elements) and functions whose bodies come from a command grammar "
-             "(quotes, parameter expansions incl. quoted/escaped braces, $(..), $((..)), backquotes, groups, subshells, "
+             "(quotes, parameter expansions incl. escaped braces, $(..), $((..)), backquotes, groups, subshells, "
              "if/for/while/case incl. brace patterns, [[ ]], here-documents, nested functions, comments, redirections), "
-             "all defined in real bash and dumped by bash; random blacklist/whitelist name lists; "
-             "non-trivial = a function body (or value) containing a brace inside quotes, an expansion, a here-document "
-             "or a case pattern, with a non-empty filter list")
+             "all defined in real bash and dumped by bash; ~12% of the functions carry one planted shape of a known "
+             "mis-nesting class; random blacklist/whitelist name lists; "
+             "non-trivial = a dump containing a brace inside a value or a function body (quotes, expansion, "
+             "here-document, case pattern) filtered with a non-empty name list")
     ok = chk.build(["C34/Prop_C34.vo"])
     if ok:
         chk.check_assumptions("C34/Prop_C34.v")
@@ -649,7 +706,10 @@ def main(chk: Check):
     rng = chk.rng
 
     # ---- dump stream
-    cases = build_cases(chk, chk.n(260, 4000), depth=2 if not chk.thorough else 3)
+    cases = build_cases(chk, chk.n(110, 1500), depth=2 if not chk.thorough else 3)
+    hc = Case()       # the one fixed case of the hang class (costs its 2 s alarm once per run)
+    hc.chunks, hc.feat, hc.trig = [("f", "f", "f () \n{ \n    cat <<''\nx\n\n}\n"), ("v", "Z", "Z=1\n")], {"heredoc-empty-delim"}, {}
+    hc.vars, hc.funcs, hc.vwl, hc.fwl = [], ["f"], False, False
     feats = {}
     for c in cases:
         pick_filters(rng, c)
@@ -659,6 +719,9 @@ def main(chk: Check):
             feats[f] = feats.get(f, 0) + 1
         if (c.vars or c.funcs) and any(("}" in t or "{" in t[t.find("{") + 1:]) for k, _, t in c.chunks):
             chk.nontrivial(c.data + repr((c.vars, c.funcs, c.vwl, c.fwl)))
+    hc.data = "".join(t for _, _, t in hc.chunks)
+    hc.impl = run_impl(hc.data, hc.vars, hc.funcs, hc.vwl, hc.fwl)
+    cases.append(hc)
     chk.count("dump", len(cases))
     chk.cov["features"] = dict(sorted(feats.items()))
     for c in cases[:: max(1, len(cases) // 3)][:3]:
@@ -667,10 +730,11 @@ def main(chk: Check):
 
     # ---- raw stream
     raw = []
-    pool = list(SNIPPETS) + [c.data for c in cases[:40]]
+    small = [c.data for c in cases if len(c.data) < 260][:30]
+    pool = list(SNIPPETS) + small
     for s in SNIPPETS:
         raw.append((s, ["foo", "dar", "a", "x", "MODULE_NAMES", "FOO", "g"], ["foo", "f", "src_unpack", "x"], False, False))
-    for _ in range(chk.n(250, 4000)):
+    for _ in range(chk.n(120, 3000)):
         k = rng.randrange(3)
         if k == 0:
             s = "".join(rng.choice(SOUP) for _ in range(rng.randint(0, 24)))
@@ -681,51 +745,63 @@ def main(chk: Check):
         raw.append((s, rng.sample(["a", "b", "f", "foo", "FOO", "x", ""], rng.randint(0, 3)),
                     rng.sample(["a", "b", "f", "foo", "bar", "x", ""], rng.randint(0, 3)),
                     rng.random() < 0.3, rng.random() < 0.3))
-    raw_cases = []
-    for s, v, f, vw, fw in raw:
+    raw_cases, raw_kept = [], []
+    for item in raw:
+        s, v, f, vw, fw = item
         r = run_impl(s, v, f, vw, fw)
         if r == Err("RecursionError"):
             continue
-        raw_cases.append((c_raw(s, v, f, vw, fw), r))
+        raw_cases.append((c_raw(s, v, f, vw, fw), digest(r)))
+        raw_kept.append((item, r))
         if isinstance(r, Err):
             chk.cov.setdefault("raw_errors", {})
             chk.cov["raw_errors"][r.kind] = chk.cov["raw_errors"].get(r.kind, 0) + 1
     chk.count("raw", len(raw_cases))
 
-    # ---- B2: bash oracle
-    b2 = bash_oracle(chk, cases)
+    # ---- B1 directly (the same comparison is made inside Coq against Spec_C34.expected_chunks)
+    b1_py = [i for i, c in enumerate(cases) if c.impl != expected_text(c)]
+
+    # ---- B2: bash oracle on a sample plus every textual failure
+    nb2 = chk.n(40, 400)
+    sel = sorted(set(range(min(nb2, len(cases)))) | set(b1_py))
+    b2s = bash_oracle(chk, [cases[i] for i in sel])
+    b2 = {sel[k]: v for k, v in b2s.items()}
+    chk.count("bash-oracle", len(sel))
 
     # ---- Coq: model and spec
-    a_bad, b1_bad = [], []
+    a_bad, b1_bad = [], list(b1_py)
     if ok:
         r = chk.coq_eval("dump", IMPORTS, "((list ((bool * list N) * list N)) * list (list N) * list (list N)) * (bool * bool)",
-                         [(c_case(c), c.impl) for c in cases],
-                         ["mismatches run_dump cases", "where_ (fun i r => negb (spec_dump_ok i r)) cases"], shard=60)
+                         [(c_case(c), digest(c.impl)) for c in cases],
+                         ["mismatches run_dump cases", "where_ (fun i r => negb (spec_dump_ok i r)) cases"], shard=40)
         if r is not None:
-            a_bad, b1_bad = r
+            a_bad = r[0]
+            b1_bad = sorted(set(r[1]) | set(b1_py))
         r2 = chk.coq_eval("raw", IMPORTS, "(list N * list (list N) * list (list N)) * (bool * bool)", raw_cases,
-                          ["mismatches run_filter cases"], shard=150)
+                          ["mismatches run_filter cases"], shard=250)
         for i in (r2[0] if r2 else [])[:3]:
+            item, impl = raw_kept[i]
             chk.violation("correspondence",
                           {"what": "implementation and Model_C34 disagree on the raw stream (theorems of Prop_C34 no longer "
-                                   "speak about this code)", "input": raw_cases[i][0], "data": raw[i][0] if i < len(raw) else None,
-                           "implementation": raw_cases[i][1]}, no_input=not (b1_bad or b2))
-    else:
-        # no Coq: still run B1 directly
-        b1_bad = [i for i, c in enumerate(cases) if c.impl != expected_text(c)]
+                                   "speak about this code)", "input": {"data": item[0], "vars": item[1], "funcs": item[2],
+                                                                       "vars_is_whitelist": item[3], "funcs_is_whitelist": item[4]},
+                           "implementation": impl}, no_input=not (b1_bad or b2))
 
     # ---- report property failures (B1 textual, B2 bash) with classification
     failing = sorted(set(b1_bad) | set(b2))
     reported = 0
+    unclassified = []
     for i in failing:
         c = cases[i]
-        ex = {"what": ("output is not the concatenation of the surviving definitions" if i in b1_bad else b2[i]),
+        ex = {"what": ("output is not the concatenation of the surviving definitions (each dropped one leaving its newline)"
+                       if i in b1_bad else b2[i]),
               "input": {"data": c.data, "vars": c.vars, "funcs": c.funcs, "vars_is_whitelist": c.vwl,
                         "funcs_is_whitelist": c.fwl},
               "expected": expected_text(c), "implementation": c.impl, "bash": b2.get(i)}
         cls = finding_class(c)
         if cls is not None and chk.known_finding(cls, ex):
             continue
+        unclassified.append(i)
         if reported < 3:
             chk.violation("property", ex)
             reported += 1
@@ -734,5 +810,21 @@ def main(chk: Check):
         chk.violation("correspondence",
                       {"what": "implementation and Model_C34 disagree on a bash dump (theorems of Prop_C34 no longer "
                                "speak about this code)", "input": {"data": c.data, "vars": c.vars, "funcs": c.funcs,
-                                                                   "vwl": c.vwl, "fwl": c.fwl},
-                       "implementation": c.impl}, no_input=not failing)
+                                                                   "vars_is_whitelist": c.vwl, "funcs_is_whitelist": c.fwl},
+                       "implementation": c.impl}, no_input=not unclassified)
+
+
+def replay(chk, data):
+    inp = data.get("detail", {}).get("input")
+    if not isinstance(inp, dict) or "data" not in inp:
+        print("nothing to replay")
+        return
+    r = run_impl(inp["data"], inp.get("vars", []), inp.get("funcs", []), inp.get("vars_is_whitelist", False),
+                 inp.get("funcs_is_whitelist", False))
+    print("implementation:", repr(r))
+    term = c_raw(inp["data"], inp.get("vars", []), inp.get("funcs", []), inp.get("vars_is_whitelist", False),
+                 inp.get("funcs_is_whitelist", False))
+    res = chk.coq_eval("replay", IMPORTS, "(list N * list (list N) * list (list N)) * (bool * bool)",
+                       [(term, digest(r))], ["mismatches run_filter cases"])
+    print("model agrees with implementation:", res is not None and not res[0])
+    print("expected by spec:", repr(data.get("detail", {}).get("expected")))
